@@ -1,5 +1,5 @@
 """C18 -- specification tables are exact: names round-trip, versions convert one-to-one, lookups match the listings."""
-from contracts import names
+from contracts import names, lookups
 from vxlib.common import Undecided
 
 
@@ -13,6 +13,17 @@ def check(ctx):
             raise Undecided('names_' + key, 'enum discriminants / table length side condition does not hold: %r' % facts)
         ctx.extra_cov.setdefault('table_facts', {})[key] = facts
         ctx.verus_unit(names.make_unit(key, facts), finder=dict(ground=({'attribute': 'attributename', 'enumitem': 'enumitem', 'element': 'elementname'}[key], 'neighbours')))
+    # (a') the lookups of lib.rs for all element types, names, version masks and index lists  [Verus, parametric in the
+    # table contents; the one assumption wf_tables() is the closed fact discharged by `ground lib tables_wf` below]
+    from vxlib.rustsrc import Lost
+    try:
+        lu = lookups.make_unit(ctx.scratch.dir)
+        ctx.verus_unit(lu, finder=dict(ground=('lib', 'lookups')))
+        ctx.extra_cov['lookup_tables'] = {k: v[1] for k, v in lu.sizes.items() if isinstance(v, tuple)}
+    except Lost as e:
+        ctx.undecided.append('lookups reason=lost anchor: %s' % e)
+    ctx.native_ground('lib', 'tables_wf', 'complete',
+                      'wf_tables() of the Verus unit `lookups` evaluated on the real statics: every stored index/range/version list lies inside the table it points into; group nesting is well-founded (rank = nesting height)')
     # (b) closed instances on the real code  [native, exhaustive]
     for mod, ty in (('attributename', 'AttributeName'), ('enumitem', 'EnumItem'), ('elementname', 'ElementName')):
         ctx.native_ground(mod, 'names', 'complete', 'for every member i of %s: from_bytes(text(i)) == Ok(i), to_str, Display and from_str agree' % ty)
